@@ -832,6 +832,11 @@ class Expander:
 def expand_modules(modules):
     if os.environ.get('SA_NO_EXPAND'):
         return {'disabled': True}
+    # parent links would make every deepcopy drag the whole module along
+    for m in modules.values():
+        for n in ast.walk(m.tree):
+            if hasattr(n, '_parent'):
+                del n._parent
     return Expander(modules, load_baseline()).run()
 
 
